@@ -11,6 +11,11 @@ sys.path.insert(0, '/verif/lib')
 import vlib
 from vlib import V
 
+PICKS = {'quick': ['snip[ins.globalInClosure]', 'snip[ins.initFuncs]'],
+         'thorough': ['snip[ins.globalInClosure]', 'snip[rec.mutual]', 'snip[ins.closureLoopVar]', 'snip[ins.initFuncs]', 'snip[gen.typeMethod]', 'snip[ins.embeddedIface]', 'snip[defer.namedResult]', 'snip[rec.list]', 'snip[ins.go]', 'snip[ins.typeSwitch]']}
+REP_EXECS = {'quick': 12, 'thorough': 1500}
+
+
 def cases(tier):
     out = []
     if tier == 'quick':
@@ -65,8 +70,39 @@ def main(tier):
             rep.fail(f"MapParallel len={c['Len']} workers={c['N']}: {c['Violation']}", ['part:a', f"len:{c['Len']}", f"n:{c['N']}"],
                      dict(part='a', len=c['Len'], workers=c['N'], bound=c['Bound'], violation=c['Violation'], blocked=c.get('Blocked'),
                           schedule=c.get('Schedule'), replay=f"{V}/bin/vps mappar -replay {sched}"))
+    # parts (b)-(d): the whole analysis under the scheduler with map race probes, for every report-option subset
+    subj = f'{V}/build/c20-subjects.jsonl'
+    picks = PICKS[tier]
+    vlib.vp('dump-subjects', '-family', 'snippets', '-out', subj, '-pick', ';'.join(picks))
+    nsh = vlib.NPROC
+
+    def rshard(i):
+        out = f'{V}/build/c20-rep-{i}.jsonl'
+        r = subprocess.run([f'{V}/bin/vps', 'reports', '-in', subj, '-out', out, '-shard', f'{i}/{nsh}', '-bound', '1', '-maxexecs', str(REP_EXECS[tier])],
+                           stdout=subprocess.DEVNULL, stderr=subprocess.PIPE, text=True, env=vlib.GOENV, timeout=14400)
+        recs = [json.loads(l) for l in open(out)] if os.path.exists(out) else []
+        return recs, r.returncode, r.stderr[-1500:]
+    rrecs = []
+    with cf.ThreadPoolExecutor(nsh) as ex:
+        for rs, rc2, err in ex.map(rshard, range(nsh)):
+            rrecs += rs
+            if rc2 not in (0, 1) or 'DONE' not in err[-100:]:
+                rep.fail('reports worker died', ['death', 'part:bcd'], dict(stderr=err))
+    rexecs = sum(r['execs'] for r in rrecs)
+    rtrans = sum(r['transitions'] for r in rrecs)
+    rstates = sum(r['states'] for r in rrecs)
+    rcapped = sum(1 for r in rrecs if r['capped'])
+    for r in rrecs:
+        for v in r.get('violations') or []:
+            kind = 'report-incomplete' if 'report' in v else ('race' if 'unsynchronised' in v else ('leak' if 'blocked' in v else 'other'))
+            rep.fail(f"analysis of {r['sig']} with options [{r['opts']}]: {v[:200]}", ['part:bcd', 'kind:' + kind] + ['opt:' + o for o in r['opts'].split('+')],
+                     dict(part='b-d', subject=r['sig'], options=r['opts'], violation=v, schedule=r.get('schedule'), races=r.get('races')))
+    execs += rexecs
+    trans += rtrans
+    states += rstates
     rw = json.load(open(f'{V}/build/rewrite.json'))
-    rep.cov = dict(states=max(states, 1), transitions=max(trans, 1), traces_validated_against_impl=execs,
+    rep.cov = dict(report_option_runs=len(rrecs), report_executions=rexecs, report_runs_hitting_cap=rcapped,
+                   map_write_probes=sum(v.get('MapWrites', 0) for v in rw.get('typed', {}).values()),states=max(states, 1), transitions=max(trans, 1), traces_validated_against_impl=execs,
                    evaluations=execs, distinct_nontrivial=sum(1 for c in results if c['Execs'] > 1),
                    rule='evaluation = one complete controlled execution of the real MapParallel; states = distinct scheduling-point '
                         'prefixes; non-trivial = (len, workers, bound) case with more than one schedule; traces_validated_against_impl = executions '
@@ -74,7 +110,7 @@ def main(tier):
                    cases=[dict(len=c['Len'], workers=c['N'], bound=c['Bound'], executions=c['Execs'], unbounded_exhaustive=c['Exhaustive']) for c in results],
                    capped_cases=capped, rewritten_files=sorted(rw['replace']), rewrite_stats=rw['stats'],
                    samples=[dict(len=c['Len'], workers=c['N'], bound=c['Bound'], executions=c['Execs']) for c in results[:4]],
-                   parts_implemented=['a: MapParallel'])
+                   parts_implemented=['a: MapParallel', 'b-d: whole taint analysis (state initialisation goroutines, summary pass, report writer) x 16 option sets with map race probes'])
     rep.assumptions = ['sequentially consistent scheduler (no weak-memory effects)', 'preemption bound as listed per case; cases that hit the execution cap are listed in capped_cases',
-                       'parts (b)-(d) of the design are not yet covered by this check']
-    return rep.finish(exhaustive=not capped)
+                       'race probes cover map reads (range, through the order seam) and map writes (m[k]=v, delete); struct fields and slice elements are not probed']
+    return rep.finish(exhaustive=not capped and rcapped == 0)
